@@ -52,8 +52,11 @@ def rule_g1(ctx):
     if not opens:
         raise AnalysisError('undecidable shape: _DiskCacheWrapper.__init__ does not open a diskcache.Cache')
     op = opens[0]
-    exist_tests = [nd for nd in g.nodes if nd.kind == 'test' and 'cache_dir' in A.src(nd.ast.test) and any(
-        k in A.src(nd.ast.test) for k in ('is_dir', 'exists', 'glob', 'listdir', 'iterdir', 'scandir'))]
+    def test_expr(nd):
+        t, _neg = A.strip_not(nd.ast.test)
+        return flow.copy_prop(t, fn) if isinstance(t, ast.Name) else nd.ast.test
+    exist_tests = [nd for nd in g.nodes if nd.kind == 'test' and 'cache_dir' in A.src(test_expr(nd)) and any(
+        k in A.src(test_expr(nd)) for k in ('is_dir', 'exists', 'glob', 'listdir', 'iterdir', 'scandir'))]
     reuse_tests = [nd for nd in g.nodes if nd.kind == 'test' and A.is_name(A.strip_not(nd.ast.test)[0], 'reuse')]
     ok = bool(exist_tests) and bool(reuse_tests)
     detail = ''
@@ -62,7 +65,7 @@ def rule_g1(ctx):
     else:
         et, rt = exist_tests[0], reuse_tests[0]
         # emptiness is part of the test and has the right polarity
-        kind0, ats0 = A.atoms(et.ast.test)
+        kind0, ats0 = A.atoms(test_expr(et))
         nonempty = kind0 == 'and' and any(
             len(a) == 3 and ((a[2] is not None and any(k in A.src(a[0]) for k in ('glob', 'listdir', 'iterdir', 'scandir'))
                               and ((a[1] in ('>', '!=') and A.int_value(a[2]) == 0) or (a[1] == '>=' and A.int_value(a[2]) == 1)))
@@ -126,19 +129,31 @@ def rule_g2(ctx):
               and n.func.attr == 'close' and 'cache' in A.src(n.func.value)]
     for mod, n, name in inside:
         under_clear = False
+        extra = None
         for test, branch in flow.guards_of(n, fn):
             t, neg = A.strip_not(test)
             if A.is_self_attr(t, 'clear') and branch != neg:
                 under_clear = True
-            if A.is_self_attr(t, 'clear') and branch == neg:
+            elif A.is_self_attr(t, 'clear') and branch == neg:
                 under_clear = False
                 break
+            elif any(A.is_self_attr(x, 'clear') for x in ast.walk(test)):
+                # clear combined with something else: removal no longer happens exactly when clear is set
+                kind_, ats_ = A.atoms(test, negated=not branch)
+                if kind_ == 'and' and any(len(a) == 3 and a[1] == 'truthy' and A.is_self_attr(a[0], 'clear') for a in ats_):
+                    under_clear = True
+                    others = [a for a in ats_ if not (len(a) == 3 and A.is_self_attr(a[0], 'clear'))]
+                    others = [a for a in others if not ('exists' in A.src(a[0]) or 'directory' in A.src(a[0]))]
+                    if others:
+                        extra = others[0]
         after_close = bool(closes) and closes[0].lineno < n.lineno and not [
             t for t, b in flow.guards_of(closes[0], fn) if 'clear' in A.src(t)]
         target_ok = n.args and 'directory' in A.src(n.args[0])
-        ok = under_clear and after_close and target_ok
+        ok = under_clear and after_close and target_ok and extra is None
         rep.ob('G2', K.key(w, '__del__', 'removes-directory-iff-clear-after-close(%s)' % name), ok, n,
                '' if ok else ('the directory is removed although clear is false' if not under_clear else
+                              'with clear=True the directory is removed only if additionally `%s` holds: a cache opened on '
+                              'an existing directory with clear=True is left behind' % A.short(extra[0]) if extra is not None else
                               'the directory is removed before the cache is closed' if not after_close else
                               'something else than the cache directory is removed'))
     ok = bool(closes)
